@@ -60,6 +60,14 @@ func one(c *runlib.Ctx, p pair, s string) (accepted bool) {
 	}
 
 	want = p.ref(s)
+	// The validators are pure: a second call, after the reference twin (a
+	// golibs function for the hostname pairs) saw the same input, must agree
+	// with the first.
+	if again := p.impl(s); again != got {
+		c.Violation(p.name+"/order-dependent/"+enum.Hex(s), p.name+"("+enum.Hex(s)+") = "+b2s(got)+" on the first call and "+b2s(again)+
+			" after its reference twin was called on the same input", witness{p.name, enum.Hex(s)})
+	}
+
 	if got != want {
 		c.Violation(p.name+"/"+enum.Hex(s), p.name+"("+enum.Hex(s)+") = "+b2s(got)+", reference parser says "+b2s(want),
 			witness{p.name, enum.Hex(s)})
